@@ -8,8 +8,19 @@ use mmtk::util::verif::rt::ev;
 /// after an emergency GC: a handful of iterations.
 pub const ALLOC_SLOW_ITER_LIMIT: u64 = 2000;
 
-pub fn on_event(w: &mut World, tid: usize, kind: u32, a: usize, b: usize, _c: usize) {
+pub fn on_event(w: &mut World, tid: usize, kind: u32, a: usize, b: usize, c: usize) {
+    if crate::oracle2::on_event(w, tid, kind, a, b, c) {
+        return;
+    }
     match kind {
+        ev::ACQUIRE_FAIL => {
+            let e = w.acquire_fails.entry(tid).or_insert((0, 0));
+            if a == 1 {
+                e.1 += 1;
+            } else {
+                e.0 += 1;
+            }
+        }
         ev::ALLOC_SLOW_ITER => {
             if b == 1 {
                 let n = w.alloc_slow_iters.entry(tid).or_insert(0);
